@@ -5,7 +5,7 @@ PROP = dict(
     corpus_filter=r"^c16_",
     extra=dict(kind="c16"),
     # n = scenarios (each: a fresh host node on a real chain.Manager, 10-60 blocks, 1-4 reorgs), len = ops after funding
-    quick=dict(n=160, len=14, shards=8, timeout=400),
+    quick=dict(n=480, len=14, shards=16, timeout=400),
     thorough=dict(n=6400, len=16, shards=16, timeout=1700),
     nontrivial=r"^reorg .*forked=1 .*u=R\|\d+\|\d+\|", min_ops=8, min_kinds=3,
     shrink_budget=60, replay_timeout=180,
